@@ -285,7 +285,11 @@ PROPS["C02"] = {
     "technique": "Verus contracts on the real process_single_spend / compute_coin_id / Coin::coin_id / parse_conditions: coin-id formula over the canonical amount, double-spend exclusion via the spent-coin map, duplicate-output exclusion (NewCoin identity) and exact totals; validate_conditions' conservation clauses (iff); run_spendbundle's recorded spend identity (declared puzzle hash == tree hash of the reveal)",
     "level_text": "Deductive proof: every accepted spend has a 32-byte parent and puzzle hash and a canonical amount; its coin id is sha256(parent ‖ puzzle hash ‖ canon(amount)) (and Coin::coin_id computes the same formula); the id was not spent before in the bundle (else DoubleSpend); removal_amount grows by exactly the coin amount, addition_amount by exactly the created amounts, no (puzzle hash, amount) is created twice by one spend, u128 totals cannot overflow.",
     "level_note": "The final conservation test in validate_conditions (additions <= removals, reserved fee <= removals - additions) is proved in unit validate_conds (iff); in run_spendbundle (unit drivers) the spend recorded for each coin is proved to carry the coin's own parent id, its declared puzzle hash - checked equal to the tree hash of the revealed puzzle - and its amount; run_block_generator2 computes the puzzle hash itself (tree_hash_cached of the reveal). Ground side (task paths_ground): every accepted bundle's reported (coin id, puzzle hash, amount) triples are recomputed from the revealed puzzles, and bundles whose second/third/first spend declares an honest spend's puzzle hash over a different reveal must be rejected. sha256 uninterpreted; NewCoinSet identity assumed to be (puzzle_hash, amount) as NewCoin's PartialEq/Hash implement it.",
-    "components": [V("conditions_effects"), V("int_encoders"), V("validate_conds"), V("drivers"), N("native_paths_ground", "paths_ground")],
+    "components": [V("conditions_effects"), V("int_encoders"), V("validate_conds"), V("drivers"), N("native_paths_ground", "paths_ground"),
+                   # "the reported puzzle hash is the tree hash of the revealed puzzle": the two routines the drivers call for it
+                   # (tree_hash in run_spendbundle, tree_hash_cached over one shared TreeCache in run_block_generator2) are proved
+                   # equal to the definition in unit tree_hash (C17's unit), and compared with it on ground atoms and trees
+                   V("tree_hash"), N("native_tree_hash_ground", "tree_hash_ground")],
     "assumptions": ["Sha256 ghost model", "HashMap<Arc<Bytes32>, usize> / HashSet<NewCoin> insertion semantics (shims/cond_env.rs)"],
     "not_covered": [
         "run_block_generator2: that the node handed over as puzzle hash is tree_hash_cached(puzzle reveal) is in the extracted text but not a clause of its contract (the allocator is opaque there)",
